@@ -2,6 +2,7 @@ SPECIFICATION MCSpec
 CONSTANTS
   MC_Ns = {2, 3, 4}
   MC_Topos <- ToposAll
+  MC_MaxFail = 1
   Defect_HandoffLost = FALSE
   YieldTransparent = FALSE
   KeepHist = TRUE
